@@ -12,6 +12,7 @@
 From Coq Require Import NArith List Bool.
 Import ListNotations.
 Require Import SR.Base.Res SR.Spec.Picture SR.Model.Picture SR.Proofs.PictureP.
+Require SR.Spec.SchemaTruth.
 Open Scope N_scope.
 
 (* ---- strict acceptance: ValueError, or the size is the number of positions denoted and no character of the
@@ -80,6 +81,70 @@ Theorem C13_repeat_partial : forall (s e : list N) r r', known_bad s = false -> 
   p_size r' = p_size r /\ sp_parse e = sp_parse s.
 Proof. exact repeat_partial. Qed.
 Print Assumptions C13_repeat_partial.
+
+(* ---- the decoder half under the decoder's own findings only.
+   kb_dec (Proofs/PictureP.v) = the triggers of findings 6, 1, 2, 8, 7 restricted to the decoder-side scanner
+   and zoned_decimal; the generator-side findings 3, 4, 5 play no role, so S9(5)V99 is covered.
+   known_bad s = false implies kb_dec s = false. ---- *)
+Theorem C13_decoder_summary_dec : forall (s : list N) r, kb_dec s = false -> dec_parse s = Some (Ok r) ->
+  exists v, sp_parse s = Some v /\ p_size r = positions v /\ length (g_int (p_groups r)) = int_digits v /\
+            length (g_frac (p_groups r)) = frac_digits v /\ p_zoned r = numeric v /\
+            forallb (fun c => negb (sp_foreign c)) s = true.
+Proof. exact dec_summary_dec. Qed.
+Print Assumptions C13_decoder_summary_dec.
+
+Theorem C13_kb_dec_weaker : forall s : list N, known_bad s = false -> kb_dec s = false.
+Proof. exact kb_dec_weaker. Qed.
+Print Assumptions C13_kb_dec_weaker.
+
+(* ---- the bridge to the abstract pictures of the codec properties (C02, C04, C08, C18).
+   Spec/SchemaTruth.v (C08): PNum signed m n rep_int rep_frac is printed by pic_text as  S? 9-run [V 9-run],
+   PText alpha k rep as an A- or X-run; a run of k symbols is written out or as c(k) with the decimal numeral
+   of k.  For ALL m, n, k (no bound), whatever the notation: ---- *)
+Theorem C13_printed_numeric : forall s m n ri rf, (1 <= m + n)%nat ->
+  exists r, dec_parse (SchemaTruth.pic_text (SchemaTruth.PNum s m n ri rf)) = Some (Ok r) /\
+    p_size r = ((if s then 1 else 0) + m + n)%nat /\
+    g_sign (p_groups r) = (if s then [83] else []) /\
+    length (g_int (p_groups r)) = m /\ length (g_frac (p_groups r)) = n /\
+    g_int (p_groups r) = repeat 57 m /\ g_frac (p_groups r) = repeat 57 n /\
+    p_zoned r = true.
+Proof. exact printed_numeric. Qed.
+Print Assumptions C13_printed_numeric.
+
+Theorem C13_printed_text : forall alpha k rep, (1 <= k)%nat ->
+  exists r, dec_parse (SchemaTruth.pic_text (SchemaTruth.PText alpha k rep)) = Some (Ok r) /\
+    p_size r = k /\ p_zoned r = false /\ g_sign (p_groups r) = [] /\ g_frac (p_groups r) = [].
+Proof. exact printed_text. Qed.
+Print Assumptions C13_printed_text.
+
+(* generator side: the same element list as the decoder, independent of the notation *)
+Theorem C13_printed_elements : forall p, pic_nonempty p = true ->
+  exists es, dec_normalize (SchemaTruth.pic_text p) = Some (Ok es) /\
+             gen_normalize (SchemaTruth.pic_text p) = Some (Ok es) /\
+             es = match p with
+                  | SchemaTruth.PNum s m n _ _ => num_elems s m n
+                  | SchemaTruth.PText alpha k _ => [E KDigit (repeat (text_char alpha) k)]
+                  end.
+Proof. exact printed_elements. Qed.
+Print Assumptions C13_printed_elements.
+
+(* every well-formed picture of C08 is covered *)
+Theorem C13_wf_pic_nonempty : forall p, SchemaTruth.wf_pic p = true -> pic_nonempty p = true.
+Proof. exact wf_pic_nonempty. Qed.
+Print Assumptions C13_wf_pic_nonempty.
+
+(* finding 4, stated exactly: the generator classifies a printed numeric picture as numeric iff no digit run is
+   written with a repeat count (the decoder says numeric in every case, C13_printed_numeric) *)
+Theorem C13_printed_numeric_class : forall s m n ri rf, (1 <= m + n)%nat ->
+  gen_numeric (SchemaTruth.pic_text (SchemaTruth.PNum s m n ri rf))
+  = negb (SchemaTruth.written_with_repeat (SchemaTruth.PNum s m n ri rf)).
+Proof. exact printed_numeric_class. Qed.
+Print Assumptions C13_printed_numeric_class.
+
+Theorem C13_printed_text_class : forall alpha k rep, (1 <= k)%nat ->
+  gen_numeric (SchemaTruth.pic_text (SchemaTruth.PText alpha k rep)) = false.
+Proof. exact printed_text_class. Qed.
+Print Assumptions C13_printed_text_class.
 
 (* ---- refutations of the unguarded statements by the faithful model: one witness per known finding ---- *)
 Definition str_9q9 : list N := [57; 63; 57].             (* 9?9 *)
@@ -171,4 +236,11 @@ Example C13_example_repeat :
   known_bad s = false /\ known_bad e = false /\ sp_expand s = Some e /\
   is_ok (match dec_parse s with Some x => x | None => Err OtherError end) = true /\
   is_ok (match dec_parse e with Some x => x | None => Err OtherError end) = true.
+Proof. vm_compute. repeat split; reflexivity. Qed.
+(* the printed form of PNum true 5 2 (count notation for the integer part) is S9(5)V99: a known finding (4) of the
+   generator, not of the decoder *)
+Example C13_example_printed :
+  SchemaTruth.pic_text (SchemaTruth.PNum true 5 2 true false) = [83; 57; 40; 53; 41; 86; 57; 57] /\
+  known_bad [83; 57; 40; 53; 41; 86; 57; 57] = true /\ kb_dec [83; 57; 40; 53; 41; 86; 57; 57] = false /\
+  SchemaTruth.pic_text (SchemaTruth.PText false 12 true) = [88; 40; 49; 50; 41].
 Proof. vm_compute. repeat split; reflexivity. Qed.
